@@ -6,7 +6,7 @@ the Spec's `setPath`.
 import NoulithModel.Lemmas.HeapEval
 
 namespace Noulith.RcHeap
-open Noulith.Store (Tree modPath pyIdx setφ takeφ popφ removeφ getPath setPath)
+open Noulith.Store (Tree modPath pyIdx setφ takeφ popφ removeφ getPath setPath LeafT dictSlot)
 
 /-- the count invariant of a state: cells and payloads account for every strong count -/
 def SInv (s : State) : Prop := Inv s.h s.cells
@@ -67,8 +67,8 @@ theorem withCell_setIndex {s : State} {h : Heap} {T : List Val} {σ : List Tree}
     have := sim_put_cell sim S1.stable S2.2
     rwa [set_getD_self] at this
 
-theorem withCell_walk {leaf : Heap → Val → WalkRes} {φ : Tree → Option (Tree × Tree)}
-    (L : LeafSpec leaf [] [] φ) {s : State} {h : Heap} {T : List Val} {σ : List Tree} {x : Nat}
+theorem withCell_walk {leaf : Leaf} {φ : LeafT}
+    (L : LeafSpec leaf.act [] [] φ.act) (LI : InsSpec leaf.ins φ.ins [] []) {s : State} {h : Heap} {T : List Val} {σ : List Tree} {x : Nat}
     (path : List Int) (hx : x < s.cells.length) (i : Inv h (T ++ s.cells)) (sim : All2 (Rep h) s.cells σ) :
     Stable h (withCell s h x (fun h v => walk leaf h v path)).1.h (T ++ s.cells.set x .null) ∧
     (withCell s h x (fun h v => walk leaf h v path)).1.cells.length = s.cells.length ∧
@@ -90,7 +90,7 @@ theorem withCell_walk {leaf : Heap → Val → WalkRes} {φ : Tree → Option (T
     have := inv_take_cell (T := T) hx i
     simpa using this
   have rx : Rep h (s.cells.getD x .null) (σ.getD x .null) := All2.getD x _ _ sim hx
-  have W := walk_spec L path h (s.cells.getD x .null) (T ++ s.cells.set x .null) (σ.getD x .null) i1 rx trivial
+  have W := walk_spec L LI path h (s.cells.getD x .null) (T ++ s.cells.set x .null) (σ.getD x .null) i1 rx trivial
   dsimp only at W
   obtain ⟨Wtr, Wrep⟩ := W
   simp only [withCell, cellOf]
@@ -138,42 +138,195 @@ theorem readLvalue_spec {s : State} {h : Heap} {T : List Val} {σ : List Tree} (
 
 /-! ### tree lemmas about the Spec's `setPath` -/
 
-theorem modPath_set_set (a b : Tree) : ∀ (path : List Int) (t t1 : Tree) (r : Tree),
+/-! #### well-formed trees: a dict has as many keys as values, at every depth -/
+
+mutual
+def treeWF : Tree → Prop
+  | .null => True
+  | .int _ => True
+  | .list ts => treeWFList ts
+  | .dict ks vs => ks.length = vs.length ∧ treeWFList vs
+def treeWFList : List Tree → Prop
+  | [] => True
+  | t :: ts => treeWF t ∧ treeWFList ts
+end
+
+theorem treeWFList_getD : ∀ (ts : List Tree) (j : Nat), treeWFList ts → treeWF (ts.getD j .null)
+  | [], j, _ => by simp [treeWF]
+  | t :: ts, 0, h => by rw [treeWFList] at h; simpa using h.1
+  | t :: ts, j + 1, h => by rw [treeWFList] at h; simpa using treeWFList_getD ts j h.2
+
+theorem treeWF_kids {t : Tree} (h : treeWF t) : treeWFList t.kids := by
+  cases t with
+  | null => simp [Tree.kids, treeWFList]
+  | int n => simp [Tree.kids, treeWFList]
+  | list ts => rw [treeWF] at h; exact h
+  | dict ks vs => rw [treeWF] at h; exact h.2
+
+theorem treeWF_dictWF {t : Tree} (h : treeWF t) : t.dictWF := by
+  cases t with
+  | null => intro ks e; simp [Tree.keysT] at e
+  | int n => intro ks e; simp [Tree.keysT] at e
+  | list ts => exact Tree.dictWF_list ts
+  | dict ks vs => rw [treeWF] at h; exact Tree.dictWF_dict h.1
+
+theorem treeWF_of_parts {t : Tree} (hc : t.isCont = true) (hw : t.dictWF) (hk : treeWFList t.kids) : treeWF t := by
+  cases t with
+  | null => simp at hc
+  | int n => simp at hc
+  | list ts => rw [treeWF]; exact hk
+  | dict ks vs => rw [treeWF]; exact ⟨by simpa [Tree.kids] using hw ks rfl, hk⟩
+
+/-- every represented tree is well formed -/
+theorem treeWF_of_repN : ∀ (k : Nat) {h : Heap} {v : Val} {t : Tree}, RepN k h v t → treeWF t := by
+  intro k
+  induction k with
+  | zero => intro h v t r; cases v <;> simp at r <;> subst r <;> simp [treeWF]
+  | succ k ih =>
+    intro h v t r
+    cases v with
+    | null => simp at r; subst r; simp [treeWF]
+    | int n => simp at r; subst r; simp [treeWF]
+    | ref id =>
+      simp only [RepN_ref_succ] at r
+      have : ∀ (vs : List Val) (ts : List Tree), All2 (RepN k h) vs ts → treeWFList ts := by
+        intro vs
+        induction vs with
+        | nil => intro ts a; cases ts <;> simp [treeWFList] at a ⊢
+        | cons v vs ihv =>
+          intro ts a
+          cases ts with
+          | nil => simp at a
+          | cons t ts => simp only [All2.cons_cons] at a; rw [treeWFList]; exact ⟨ih a.1, ihv ts a.2⟩
+      exact treeWF_of_parts r.1 r.2.2.2.1 (this _ _ r.2.2.2.2)
+
+theorem treeWF_of_rep {h : Heap} {v : Val} {t : Tree} (r : Rep h v t) : treeWF t := by
+  obtain ⟨k, r⟩ := r; exact treeWF_of_repN k r
+
+theorem keyIdx_lt : ∀ {ks : List Int} {i : Int} {j : Nat}, Store.keyIdx ks i = some j → j < ks.length
+  | [], _, _, h => by simp [Store.keyIdx] at h
+  | k :: ks, i, j, h => by
+    simp only [Store.keyIdx] at h
+    split at h
+    · injection h with h; subst h; simp
+    · cases hk : Store.keyIdx ks i with
+      | none => rw [hk] at h; simp at h
+      | some j' => rw [hk] at h; simp at h; subst h; have := keyIdx_lt hk; simp; omega
+
+theorem keyIdx_append_self : ∀ (ks : List Int) (i : Int), Store.keyIdx ks i = none →
+    Store.keyIdx (ks ++ [i]) i = some ks.length
+  | [], i, _ => by simp [Store.keyIdx]
+  | k :: ks, i, h => by
+    simp only [Store.keyIdx] at h
+    split at h
+    · cases h
+    · rename_i hne
+      cases hk : Store.keyIdx ks i with
+      | some j => rw [hk] at h; simp at h
+      | none => simp [Store.keyIdx, hne, keyIdx_append_self ks i hk]
+
+theorem set_append_length {α : Type} (l : List α) (a b : α) : (l ++ [a]).set l.length b = l ++ [b] := by
+  induction l with
+  | nil => rfl
+  | cons x xs ih => simp [ih]
+
+/-- a second assignment along the same path overrides the first (on well-formed trees) -/
+theorem modPath_set_set (a b : Tree) : ∀ (path : List Int) (t t1 : Tree) (r : Tree), treeWF t →
     modPath (setφ a) t path = some (t1, r) → modPath (setφ b) t1 path = modPath (setφ b) t path := by
   intro path
   induction path with
   | nil =>
-    intro t t1 r h
+    intro t t1 r _ h
     rw [modPath_nil] at h ⊢; rw [modPath_nil]
     simp [setφ]
   | cons ix rest ih =>
-    intro t t1 r h
-    cases t with
-    | null => simp [modPath] at h
-    | int n => simp [modPath] at h
-    | list ts =>
-      rw [modPath_list_cons] at h
-      cases hp : pyIdx ts.length ix with
-      | none => rw [hp] at h; simp at h
+    intro t t1 r hw h
+    by_cases hc : t.isCont = true
+    · rw [modPath_cont_cons _ hc] at h
+      cases hp : treeSlot t ix with
       | some j =>
         rw [hp] at h
         dsimp only at h
-        cases hm : modPath (setφ a) (ts.getD j .null) rest with
+        cases hm : modPath (setφ a) (t.kids.getD j .null) rest with
         | none => rw [hm] at h; simp at h
         | some tr =>
           obtain ⟨t', r'⟩ := tr
           rw [hm] at h
           simp only [Option.some.injEq, Prod.mk.injEq] at h
           obtain ⟨rfl, rfl⟩ := h
-          have hj : j < ts.length := pyIndex_lt (by rw [pyIndex_eq_pyIdx]; exact hp)
-          rw [modPath_list_cons, modPath_list_cons]
-          simp only [List.length_set, hp]
-          rw [getD_set_self _ _ _ _ hj, ih _ _ _ hm]
-          cases modPath (setφ b) (ts.getD j .null) rest with
+          have hj : j < t.kids.length := by
+            unfold treeSlot at hp
+            cases hk : t.keysT with
+            | none => rw [hk] at hp; exact pyIndex_lt (by rw [pyIndex_eq_pyIdx]; exact hp)
+            | some ks =>
+              rw [hk] at hp
+              simp only [dictSlot] at hp
+              cases hki : Store.keyIdx ks ix with
+              | none => rw [hki] at hp; simp at hp
+              | some j' =>
+                rw [hki] at hp
+                dsimp only at hp
+                split at hp
+                · injection hp with hp; omega
+                · cases hp
+          have hc' := Tree.withKids_isCont (t.kids.set j t') hc
+          have hslot : treeSlot (t.withKids (t.kids.set j t')) ix = some j := by
+            unfold treeSlot at hp ⊢
+            rw [Tree.withKids_keysT, Tree.withKids_kids _ hc]
+            simpa using hp
+          rw [modPath_cont_cons _ hc', modPath_cont_cons _ hc, hslot, hp]
+          dsimp only
+          rw [Tree.withKids_kids _ hc, getD_set_self _ _ _ _ hj,
+            ih _ _ _ (treeWFList_getD _ j (treeWF_kids hw)) hm]
+          cases modPath (setφ b) (t.kids.getD j .null) rest with
           | none => rfl
-          | some tr2 => obtain ⟨t2, r2⟩ := tr2; simp [List.set_set]
+          | some tr2 =>
+            obtain ⟨t2, r2⟩ := tr2
+            dsimp only
+            rw [List.set_set]
+            cases t <;> simp_all [Tree.withKids]
+      | none =>
+        rw [hp] at h
+        dsimp only at h
+        unfold modMissing at h
+        cases hk : t.keysT with
+        | none => rw [hk] at h; simp at h
+        | some ks =>
+          rw [hk] at h
+          cases rest with
+          | cons i2 r2 => simp at h
+          | nil =>
+            simp only [setφ, Option.some.injEq, Prod.mk.injEq] at h
+            obtain ⟨rfl, rfl⟩ := h
+            have hwl : ks.length = t.kids.length := treeWF_dictWF hw ks hk
+            -- the key is really absent
+            have hnone : Store.keyIdx ks ix = none := by
+              unfold treeSlot at hp
+              rw [hk] at hp
+              simp only [dictSlot] at hp
+              cases hki : Store.keyIdx ks ix with
+              | none => rfl
+              | some j' =>
+                rw [hki] at hp
+                have := keyIdx_lt hki
+                simp only at hp
+                split at hp
+                · cases hp
+                · omega
+            have hslot : treeSlot (Tree.dict (ks ++ [ix]) (t.kids ++ [a])) ix = some t.kids.length := by
+              simp only [treeSlot, Tree.keysT_dict, Tree.kids_dict, dictSlot, keyIdx_append_self ks ix hnone]
+              simp [hwl]
+            rw [modPath_cont_cons _ (by simp), modPath_cont_cons _ hc, hslot, hp]
+            simp only [modPath_nil, setφ, Tree.kids_dict, Tree.withKids_dict, modMissing, hk,
+              set_append_length]
+    · -- not a container: both sides raise
+      cases t with
+      | null => simp [modPath] at h
+      | int n => simp [modPath] at h
+      | list ts => simp at hc
+      | dict ks vs => simp at hc
 
-theorem setPath_setPath {t t1 : Tree} {path : List Int} {a : Tree} (b : Tree)
+theorem setPath_setPath {t t1 : Tree} {path : List Int} {a : Tree} (b : Tree) (hw : treeWF t)
     (h : setPath t path a = some t1) : setPath t1 path b = setPath t path b := by
   rw [setPath_eq] at h
   cases hm : modPath (setφ a) t path with
@@ -183,7 +336,7 @@ theorem setPath_setPath {t t1 : Tree} {path : List Int} {a : Tree} (b : Tree)
     rw [hm] at h
     simp at h
     subst h
-    rw [setPath_eq, setPath_eq, modPath_set_set a b path t t' r hm]
+    rw [setPath_eq, setPath_eq, modPath_set_set a b path t t' r hw hm]
 
 /-- whether an index assignment succeeds depends only on the path, not on the assigned value -/
 theorem modPath_set_isSome (a b : Tree) : ∀ (path : List Int) (t : Tree),
@@ -193,18 +346,23 @@ theorem modPath_set_isSome (a b : Tree) : ∀ (path : List Int) (t : Tree),
   | nil => intro t; rw [modPath_nil, modPath_nil]; simp [setφ]
   | cons ix rest ih =>
     intro t
-    cases t with
-    | null => simp [modPath]
-    | int n => simp [modPath]
-    | list ts =>
-      rw [modPath_list_cons, modPath_list_cons]
-      cases hp : pyIdx ts.length ix with
-      | none => rfl
+    by_cases hc : t.isCont = true
+    · rw [modPath_cont_cons _ hc, modPath_cont_cons _ hc]
+      cases hp : treeSlot t ix with
+      | none =>
+        dsimp only
+        unfold modMissing
+        cases t.keysT <;> cases rest <;> simp [setφ]
       | some j =>
         dsimp only
-        have := ih (ts.getD j .null)
-        cases h1 : modPath (setφ a) (ts.getD j .null) rest <;>
-          cases h2 : modPath (setφ b) (ts.getD j .null) rest <;> rw [h1, h2] at this <;> simp at this ⊢
+        have := ih (t.kids.getD j .null)
+        cases h1 : modPath (setφ a) (t.kids.getD j .null) rest <;>
+          cases h2 : modPath (setφ b) (t.kids.getD j .null) rest <;> rw [h1, h2] at this <;> simp at this ⊢
+    · cases t with
+      | null => simp [modPath]
+      | int n => simp [modPath]
+      | list ts => simp at hc
+      | dict ks vs => simp at hc
 
 theorem setPath_none_iff {t : Tree} {path : List Int} (a b : Tree) :
     setPath t path a = none ↔ setPath t path b = none := by
